@@ -8,6 +8,9 @@ Case lines
   2 src t v          source src (0 = xs[0], 1 = xs[1], 2 = y) emits v at time t
   3 op a b k         body node: 1 scale(k) a | 2 neg a | 3 add a b | 4 sub a b | 5 acc(running sum) a |
                                 6 add a passive(b) | 7 sub a passive(b);   refs: 0 xs[0], 1 xs[1], 2 y, 3+j = body node j
+  5 op k             node of the unary chain run inside a switch_ branch (variants 3 inlined / 4 nested_<>): 1 scale(k) |
+                     2 neg | 5 acc | 8 echo_mod (passes its input on only when it reads as MODIFIED);  source 3 = the
+                     switch key (the branch is the case key == 1), source 2 (y) is the branch argument
   4 mask             call-site tags: bit 1 = y passed as passive(y)  (bit 0 = passive(xs): the tag does not survive
                      tsl_element, so it has no effect in either form; not generated)
 Observation lines (driver)
@@ -57,11 +60,18 @@ def gen(rng, tier, prop):
         if all(p or (r == 2 and mask & 2) for r, p in ins):
             mask = 0
     case.append([4, mask])
+    # variants 3 / 4: a unary chain inside a switch_ branch that is activated MID-RUN (key source 3 ticks 1 at tk)
+    if rng.random() < 0.6:
+        tk = rng.randint(start, end - 2)
+        case.append([2, 3, tk, 1])
+        for _ in range(rng.randint(1, 3)):
+            op = rng.choice([8, 8, 1, 2, 5])
+            case.append([5, op, rng.choice([2, 3, 10]) if op == 1 else 0])
     return case
 
 
 def parse(case):
-    start, end, script, body, mask = 1, 12, {0: {}, 1: {}, 2: {}}, [], 0
+    start, end, script, body, mask = 1, 12, {0: {}, 1: {}, 2: {}, 3: {}}, [], 0
     for l in case:
         if l[0] == 1:
             start, end = l[1], l[2]
@@ -118,8 +128,42 @@ def reference(case, mask=None):
     return out
 
 
+def sw_body(case):
+    return [(l[1], l[2]) for l in case if l[0] == 5]
+
+
+def reference_switch(case):
+    """The branch of key 1 comes to life when the key first ticks 1 (at tk, mid-run): its argument is SAMPLED (reads as
+    modified if it holds a value), the chain runs once, and afterwards on every tick of the argument."""
+    start, end, script, _b, _m = parse(case)
+    chain = sw_body(case)
+    keys = sorted(t for t, v in script[3].items() if start <= t < end and v == 1)
+    if not chain or not keys:
+        return []
+    tk = keys[0]
+    out, acc, val = [], {}, None
+    for t in sorted(set([tk] + [t for t in script[2] if start <= t < end])):
+        if t in script[2]:
+            val = script[2][t]
+        if t < tk or val is None:
+            continue
+        if t != tk and t not in script[2]:
+            continue
+        x = val
+        for j, (op, k) in enumerate(chain):
+            if op == 1:
+                x = x * k
+            elif op == 2:
+                x = -x
+            elif op == 5:
+                acc[j] = acc.get(j, 0) + x
+                x = acc[j]
+        out.append((t, x))
+    return out
+
+
 def streams(out):
-    res = {0: [], 1: [], 2: []}
+    res = {0: [], 1: [], 2: [], 3: [], 4: []}
     done = set()
     for l in out:
         if l[0] == 30:
@@ -147,6 +191,17 @@ def oracle(prop, case, out):
         k = next((x for x in range(max(len(ref), len(st[0]))) if x >= len(ref) or x >= len(st[0]) or ref[x] != st[0][x]), 0)
         fails.append(("wire_inlined_wrong", "inlined stream differs from the reference meaning at element %d: %s vs %s"
                       % (k, st[0][k:k + 1], ref[k:k + 1])))
+    if sw_body(case):
+        for v in (3, 4):
+            if v not in done:
+                fails.append(("wire_variant_failed", "switch variant %d did not complete" % v))
+        refs = reference_switch(case)
+        if 3 in done and st[3] != refs:
+            fails.append(("wire_switch_inlined_wrong", "body inlined in the switch_ branch: %s, reference %s" % (st[3][:4], refs[:4])))
+        if 3 in done and 4 in done and st[4] != st[3]:
+            k = next((x for x in range(max(len(st[4]), len(st[3]))) if x >= len(st[4]) or x >= len(st[3]) or st[4][x] != st[3][x]), 0)
+            fails.append(("nested_in_switch_differs", "body wrapped in nested_<> inside the switch_ branch (a nested node starting mid-run) "
+                          "differs from the same body inlined in the branch at element %d: %s vs %s" % (k, st[4][k:k + 1], st[3][k:k + 1])))
     ref_active = reference(case, mask=0) if mask else None
     for v in (1, 2):
         if st[v] != st[0]:
@@ -162,7 +217,8 @@ def oracle(prop, case, out):
     return fails
 
 
-PROP_KINDS = {"C09": {"wire_variant_failed", "wire_inlined_wrong", "wire_nested_differs", "passive_arg_ignored_when_nested"}}
+PROP_KINDS = {"C09": {"wire_variant_failed", "wire_inlined_wrong", "wire_nested_differs", "passive_arg_ignored_when_nested",
+                      "wire_switch_inlined_wrong", "nested_in_switch_differs"}}
 
 
 def nontrivial(case, out):
@@ -185,7 +241,7 @@ def agree(case, impl_out, model_out):
     return isinstance(model_out, list) and model_out in ([[1]], [[0]]) and \
         (model_out == [[1]]) == (isinstance(impl_out, list) and not [f for f in oracle("C09", case, impl_out)
                                                                        if f[0] in ("wire_nested_differs", "passive_arg_ignored_when_nested",
-                                                                                   "wire_variant_failed", "crash")])
+                                                                                   "wire_variant_failed", "crash", "nested_in_switch_differs")])
 
 
 def shrink(case):
